@@ -251,6 +251,27 @@ func c10Check(x *fleetExec, e engine.Event, nd *knode) {
 	if !(absSum < 1e300) {
 		m.SumOverflow = true // sticky: the running sum may be infinite from now on, whatever follows
 	}
+	// which infinities a running sum can have reached so far (DESIGN 15.4-23)
+	posAbs, negAbs := 0.0, 0.0
+	for _, it := range m.Sorted(0) {
+		if t := it.V * it.W; t > 0 {
+			posAbs += t
+		} else if t < 0 {
+			negAbs -= t
+		}
+	}
+	if !(posAbs < 1e300) {
+		m.PosOver = true
+	}
+	if !(negAbs < 1e300) {
+		m.NegOver = true
+	}
+	switch {
+	case math.IsNaN(sum) && !(m.PosOver && m.NegOver):
+		x.fail("sum", sig, "the exact sum is NaN although the contributions of one sign never came near the float64 range (an overflowed sum must read as that infinity)", "a number or one infinity", "NaN")
+	case math.IsInf(sum, 1) && !m.PosOver, math.IsInf(sum, -1) && !m.NegOver:
+		x.fail("sum", sig, "the exact sum is an infinity that the contributions of that sign never came near", fmt.Sprintf("%v +- %v", want, tol), fmt.Sprint(sum))
+	}
 	if math.Abs(sum-want) > tol+1e-290 && !m.SumOverflow { // sums in the subnormal range lose bits to underflow
 		x.fail("sum", sig, "the exact sum is further from the true sum than a few ulps of the total of |value*weight|", fmt.Sprintf("%v +- %v", want, tol), fmt.Sprint(sum))
 	}
@@ -518,6 +539,130 @@ func (hookC15) decoded(x *fleetExec, e engine.Event, nd *knode, m *kmsg, d sk, d
 
 type hookC16 struct{ noHook }
 
+// hugeadd N V W : a weight far beyond the exactness budget (2^53 and more) enters node N; from then
+// on only the bracket oracle of reweightDirty applies (whatever the sketch holds must scale), and Clear.
+func (hookC16) event(x *fleetExec, e engine.Event) bool {
+	if e.Ev != "hugeadd" {
+		return false
+	}
+	nd := x.nodes[e.N]
+	v, w := float64(e.V), float64(e.W)
+	if nd == nil || nd.dirty || !trackable(nd.mapping, v) || !(w >= 0x1p53 && w <= 0x1p80) {
+		return true
+	}
+	if nd.spec.Store == refmodel.Paginated {
+		// beyond 2^53 a bin that is partly a page weight and partly unit entries is a rounded sum, and a
+		// re-weighting regroups it: exact scaling is not a property of that store there (DESIGN 15.4-24)
+		return true
+	}
+	side, idx := route(nd.mapping, v)
+	if side != 0 && !x.spanOK(nd, side, idx, idx) {
+		return true
+	}
+	sig := "hugeadd/" + nd.spec.Role + "/" + nd.spec.Store
+	x.lib("AddWithCount", sig, func() {
+		if err := nd.real.AddWithCount(v, w); err != nil {
+			x.fail("accepts-valid", sig, "a valid value with a large weight was refused: "+err.Error(), "accepted", err.Error())
+		}
+	})
+	nd.dirty, nd.twin = true, nil
+	x.st.Probe("weight-beyond-2^53-added")
+	return true
+}
+
+// c16Shadow builds the sketch "to which the same values had been added with their weights multiplied
+// by w" from the absorbed multiset (whose weights the model has already scaled). It then receives
+// every later event the reweighted sketch receives.
+func c16Shadow(x *fleetExec, nd *knode, sig string) {
+	nd.twin = nil
+	m := nd.model
+	if nd.tainted || nd.dirty || m.Lossy || m.Tainted || m.Folded() || len(m.Vals) > 3000 {
+		return
+	}
+	sh := x.newSketch(&nd.spec, nd.mapping)
+	for _, it := range m.Sorted(0) {
+		if it.W <= 0 {
+			continue
+		}
+		it := it
+		x.lib("AddWithCount(shadow)", sig, func() {
+			if err := sh.AddWithCount(it.V, it.W); err != nil {
+				x.fail("accepts-valid", sig, "a value the sketch had accepted was refused with its scaled weight: "+err.Error(), "accepted", err.Error())
+			}
+		})
+	}
+	nd.twin = sh
+	x.st.Probe("shadow-with-scaled-weights-built")
+}
+
+// c16Compare: the reweighted sketch and its shadow have received the same events since the reweighting.
+func c16Compare(x *fleetExec, e engine.Event, nd *knode) {
+	if nd.twin == nil {
+		return
+	}
+	sig := x.sigFor(e)
+	x.st.Oracle("as-if-added-scaled")
+	a := x.snapSketch(nd.real, "reweighted")
+	b := x.snapSketch(nd.twin, "added-with-scaled-weights")
+	sa, sb, exact := a.Sum, b.Sum, a.SumExact
+	a.SumExact, b.SumExact = false, false
+	// which of -0 and +0 an extreme reports depends on the order of arrival; the shadow was fed in value order
+	for _, sn := range []*skSnap{a, b} {
+		sn.Min, sn.Max = sn.Min+0, sn.Max+0
+		for i := range sn.Quant {
+			sn.Quant[i] += 0
+		}
+		for i := range sn.Batch {
+			sn.Batch[i] += 0
+		}
+	}
+	if d := b.diff(a, false); d != "" {
+		x.fail("as-if-added-scaled", sig, "a reweighted sketch differs from one to which the same values were added with scaled weights (same later history): "+d, "added scaled: "+b.String(), "reweighted: "+a.String())
+	}
+	if !exact {
+		return
+	}
+	posAbs, negAbs, abs := 0.0, 0.0, 0.0
+	for _, it := range nd.model.Sorted(0) {
+		t := it.V * it.W
+		abs += math.Abs(t)
+		if t > 0 {
+			posAbs += t
+		} else {
+			negAbs -= t
+		}
+	}
+	if !(posAbs < 1e300) {
+		nd.model.PosOver = true
+	}
+	if !(negAbs < 1e300) {
+		nd.model.NegOver = true
+	}
+	if nd.model.PosOver && nd.model.NegOver {
+		return // both infinities were within reach: the result depends on the order of additions
+	}
+	if nd.model.PosOver || nd.model.NegOver {
+		// one infinity within reach: a finite value, or that infinity, on both sides - never NaN
+		if math.IsNaN(sa) != math.IsNaN(sb) {
+			x.fail("as-if-added-scaled", sig, "the exact sum of the reweighted sketch and of the one built with scaled weights differ in being NaN", fmt.Sprint(sb), fmt.Sprint(sa))
+		}
+		return
+	}
+	if math.Abs(sa-sb) > 64*0x1p-53*abs+1e-290 || math.IsNaN(sa) != math.IsNaN(sb) {
+		x.fail("as-if-added-scaled", sig, "the exact sums of the reweighted sketch and of the one built with scaled weights differ by more than a few ulps of the total of |value*weight|", fmt.Sprint(sb), fmt.Sprint(sa))
+	}
+}
+
+func (hookC16) after(x *fleetExec, e engine.Event, nd *knode) {
+	if e.Ev == "clear" {
+		nd.twin = nil
+		return
+	}
+	if e.Ev != "reweight" {
+		c16Compare(x, e, nd)
+	}
+}
+
 func (hookC16) before(x *fleetExec, e engine.Event, nd *knode) func() {
 	if e.Ev != "reweight" {
 		return nil
@@ -584,6 +729,8 @@ func (hookC16) before(x *fleetExec, e engine.Event, nd *knode) func() {
 		}
 		x.st.ProbeIf(w < 1, "factor-below-one")
 		x.st.ProbeIf(w > 1, "factor-above-one")
+		c16Shadow(x, nd, sig)
+		c16Compare(x, e, nd)
 		if l, ok := inspect(nd.real.GetPositiveValueStore()); ok && l.Kind == "paginated" {
 			x.st.ProbeIf(l.AllocatedPages > 0, "paginated-reweighted-with-pages")
 		}
